@@ -246,6 +246,7 @@ func (h *hist) dropPrefix(nextT *int, ps [][]byte, mreadTs uint64) (stop bool, e
 		},
 	})
 	var firstDump [][]badger.VerifTable
+	h.db.VerifSettleWatermarks() // all of DropPrefix's compactions read the same discard timestamp
 	derr := h.db.DropPrefix(ps...)
 	final := h.db.VerifDump()
 	h.installController()
